@@ -464,6 +464,24 @@ func c03LengthSweep(ctx *Ctx, report func(c interface{}, err error)) {
 		f.SetMantExp(f, bigFloatExps[n])
 		return []ev.Event{{K: ev.BigFloat, BF: f}}
 	}})
+	// times: years, sub-seconds and zone forms at their edges
+	years := []int{-2000000000, -131072, -131071, -100000, -10000, -9999, -1001, -1, 1, 999, 1000, 1999, 2000, 2001, 2127, 2128, 9999, 10000, 99999, 131071, 131072, 2000000000}
+	fams = append(fams, family{"time/date-years", 0, len(years) - 1, func(n int) []ev.Event { return tm(compact_time.NewDate(years[n], 12, 31)) }})
+	fams = append(fams, family{"time/timestamp-years", 0, len(years) - 1, func(n int) []ev.Event {
+		return tm(compact_time.NewTimestamp(years[n], 1, 1, 0, 0, 0, 0, compact_time.TZAtUTC()))
+	}})
+	nanos := []int{0, 1, 999, 1000, 999000, 999999, 1000000, 1000001, 999000000, 999999000, 999999999, 500000000, 123456789}
+	fams = append(fams, family{"time/nanoseconds", 0, len(nanos) - 1, func(n int) []ev.Event {
+		return tm(compact_time.NewTime(23, 59, 60, nanos[n], compact_time.TZAtAreaLocation("Asia/Tokyo")))
+	}})
+	latlongs := [][2]int{{0, 0}, {9000, 18000}, {-9000, -18000}, {9000, -18000}, {-9000, 18000}, {1, -1}, {8999, 17999}, {-8999, -17999}, {4512, -12233}, {-1, 18000}}
+	fams = append(fams, family{"time/lat-long", 0, len(latlongs) - 1, func(n int) []ev.Event {
+		return tm(compact_time.NewTimestamp(2020, 2, 29, 12, 0, 0, 250000000, compact_time.TZAtLatLong(latlongs[n][0], latlongs[n][1])))
+	}})
+	offsets := []int{-1439, -1438, -720, -61, -60, -59, -1, 1, 59, 60, 61, 330, 720, 1438, 1439}
+	fams = append(fams, family{"time/utc-offset", 0, len(offsets) - 1, func(n int) []ev.Event {
+		return tm(compact_time.NewTime(1, 2, 3, 0, compact_time.TZWithMiutesOffsetFromUTC(offsets[n])))
+	}})
 	cfg := newCfg()
 	var evals, nontrivial int64
 	k := 0
